@@ -244,6 +244,9 @@ func (s *c01Summ) noWriteOnEdge(e an.CondEdge, call *ssa.Call) bool {
 }
 
 func runC01(c *an.Ctx) {
+	// ---- R15: the recycled filtering context never carries the previous request's rewritten question
+	c.Floor("C01-R15", 5)
+	sharedPoolInitSweep(c, "C01-R15", "dnssvc/internal/mainmw.filteringContext", "filter/internal.Request", "filter/internal.Response")
 	c01Writers(c)
 	// ---- R13: every wire writer normalises, packs and writes the response it was given, once
 	c.Floor("C01-R13", 3)
